@@ -10,7 +10,7 @@ from .. import scenes, obs, oracles, pipeline
 from .c14 import full_state
 
 ID, NUM, LEVEL = 'C20', 20, 'exploration'
-RULE = ('Evaluation = one call of the real plots.diagnostic(chunk, upto, show_ceilos, ref_metar, ref_metar_origin, '
+RULE = ('(rcParams are compared by value - deep copy - with user-defined font fall-back lists installed in every second case; VV hits without a height are part of the vv family.) ' 'Evaluation = one call of the real plots.diagnostic(chunk, upto, show_ceilos, ref_metar, ref_metar_origin, '
         'show=False, save_stem, save_fmts) on a chunk produced by run(), bracketed by: exception capture, the full '
         'matplotlib rcParams dictionary (key by key), plt.get_fignums(), a bit-exact hash of the complete internal '
         'state of the chunk (data incl. index labels and dtypes, tables, flags, parameters) + its three messages, '
@@ -25,7 +25,7 @@ ASSUMPTIONS = ['non-interactive backends only (Agg, svg, pdf - one per worker pr
                'reference-METAR strings restricted to characters matplotlib mathtext renders literally']
 UPTOS = ['raw_data', 'slices', 'groups', 'layers']
 REQUIRED = ['upto:' + u for u in UPTOS] + ['show_ceilos_gt10_ceilos', 'gt8_layers', 'gt10_slices', 'vv_hits', 'vv_raw_noceilos',
-            'no_hits', 'single_hit', 'zero_okta_layer', 'two_formats', 'msa_with_dropped_rows', 'ref_metar', 'default_format', 'dotted_stem', 'backend:agg', 'backend:svg', 'backend:pdf', 'show_true']
+            'no_hits', 'single_hit', 'zero_okta_layer', 'two_formats', 'msa_with_dropped_rows', 'ref_metar', 'default_format', 'dotted_stem', 'backend:agg', 'backend:svg', 'backend:pdf', 'show_true', 'vv_hit_without_height', 'user_list_valued_rcparams']
 SIZES = {'quick': 60, 'thorough': 1200}     # chunks; ~4 plots each
 FAMS = ['generic', 'many_ceilos', 'many_layers', 'many_slices', 'vv', 'no_hits', 'single_hit', 'zero_okta', 'msa_drop', 'generic']
 
@@ -58,7 +58,7 @@ def build(desc):
         sc = {'rows': rows, 'names': ['a'], 'order': 'asc', 'fam': fam}
         call = {'SLICING_PRMS': {'distance_threshold': 0.01}}
     elif fam == 'vv':
-        rows = [['a', -t * 15.0, 300.0 + float(rng.normal(0, 20)), -1] for t in range(30)]
+        rows = [['a', -t * 15.0, 300.0 + float(rng.normal(0, 20)) if t % 7 != 3 else float('nan'), -1] for t in range(30)]   # some VV hits without a height
         rows += [['b', -t * 15.0 - 1, 2500.0 + float(rng.normal(0, 20)), 1 if t % 3 else -1] for t in range(30)]
         sc = {'rows': rows, 'names': ['a', 'b'], 'order': 'asc', 'fam': fam}
     elif fam == 'no_hits':
@@ -134,6 +134,19 @@ def check(desc):
         order[0] = ('raw_data', True)
     if fam == 'vv':
         order[0] = ('raw_data', False)
+        order[1] = ('layers', True)
+        if (d['type'] == -1).to_numpy()[d['height'].isna().to_numpy()].any():
+            tags.add('vv_hit_without_height')
+    user_rc = None
+    if desc['i'] % 2 == 1:
+        # a user's own list-valued rcParams (font fall-back lists that do not start with matplotlib's defaults)
+        import logging
+        logging.getLogger('matplotlib.font_manager').disabled = True
+        user_rc = {k: copy.deepcopy(matplotlib.rcParams[k]) for k in ('font.monospace', 'font.sans-serif', 'font.serif')}
+        matplotlib.rcParams['font.monospace'] = ['Courier New', 'Liberation Mono', 'monospace']
+        matplotlib.rcParams['font.sans-serif'] = ['Arial', 'DejaVu Sans', 'sans-serif']
+        matplotlib.rcParams['font.serif'] = ['Times New Roman', 'DejaVu Serif', 'serif']
+        tags.add('user_list_valued_rcparams')
     try:
         with warnings.catch_warnings():
             warnings.simplefilter('ignore')
@@ -152,7 +165,7 @@ def check(desc):
                 origin = [None, 'Human obs.', 'METAR LSGG'][int(rng.integers(3))]
                 kw = dict(upto=upto, show_ceilos=show_ceilos, ref_metar=ref, ref_metar_origin=origin, show=False,
                           save_stem=stem, save_fmts=None if fmts in ('skip', None) else fmts)
-                rc0 = dict(matplotlib.rcParams)
+                rc0 = copy.deepcopy(dict(matplotlib.rcParams))            # by value: list-valued entries edited in place must show
                 st0 = full_state(ch)
                 msg0 = [ch.metar_msg(w) for w in obs.WHICH]
                 figs0 = plt.get_fignums()
@@ -176,7 +189,7 @@ def check(desc):
                     tags.add('vv_raw_noceilos')
                 if exc is not None:
                     oracles.V(viol, 'C20', 'diagnostic() raises', exc=type(exc).__name__, msg=str(exc)[:200], **wit)
-                rc1 = dict(matplotlib.rcParams)
+                rc1 = copy.deepcopy(dict(matplotlib.rcParams))
                 if rc1 != rc0:
                     bad = [k for k in rc0 if rc0[k] != rc1.get(k)] + [k for k in rc1 if k not in rc0]
                     oracles.V(viol, 'C20', 'global matplotlib rcParams changed', keys=bad[:6], **wit)
@@ -222,6 +235,8 @@ def check(desc):
                 plt.close('all')
     finally:
         plt.close('all')
+        if user_rc is not None:
+            matplotlib.rcParams.update(user_rc)
         os.chdir(cwd0)
         shutil.rmtree(work, ignore_errors=True)
         shutil.rmtree(outd, ignore_errors=True)
